@@ -690,11 +690,14 @@ func (r *Run) applyContract(st *State, fr *Frame, fn *ssa.Function, blk *Block, 
 			st.assume(Not(pc))
 		}
 	}
-	for _, cl := range blk.All("ensures") {
+	for _, cl := range append(append([]*Clause{}, blk.All("ensures")...), blk.All("assumes")...) {
 		x, err := parseSpec(cl.Expr)
 		if err != nil {
 			e.fail("%v", err)
 			continue
+		}
+		if cl.Kind == "assumes" {
+			e.note("ASSUMED (unchecked) postcondition of %s, used at its call sites: %s", callee, cl.Expr)
 		}
 		if usesPathGhosts(cl.Expr) {
 			// talks about the callee's own execution (spawn/call counters, observed atomics, ...): meaningless for the caller
